@@ -20,7 +20,18 @@ def _is_gen_nt(f, e, at=None):
         rd = W.reaching_def(f.node, d.id, at)
         if rd is not None and rd[1] is not None:
             d = rd[1]
-    return isinstance(d, ast.Call) and W.call_name(d) == "_gen_nt"
+    if isinstance(d, ast.Call) and W.call_name(d) == "_gen_nt":
+        return True
+    # element of a list built only from _gen_nt() calls:  heads = [_gen_nt() for _ in I]; for head, ... in zip(heads, I)
+    c = W.canon_ast(f.node, e, at if at is not None else e)
+    if isinstance(c, ast.Subscript) and isinstance(c.value, ast.Name):
+        src = W.single_def(f.node, c.value.id)
+        if isinstance(src, ast.ListComp) and isinstance(src.elt, ast.Call) and W.call_name(src.elt) == "_gen_nt":
+            return True
+        if isinstance(src, ast.List) and not src.elts:
+            apps = [n for n in walk_live(f.node) if isinstance(n, ast.Call) and W.call_name(n) == "append" and W.is_name(W.receiver(n), c.value.id)]
+            return bool(apps) and all(_is_gen_nt(f, a.args[0], a) for a in apps)
+    return False
 
 
 def _adds(f, names=("add",), into_nested=False):
@@ -87,9 +98,10 @@ def rule_waux(P, which=("_fold", "separate_terminals", "separate_start", "add_EO
     if "separate_terminals" in which:
         f = P.func("cfg.py::CFG.separate_terminals")
         r.looked_at(f)
-        pre = P.funcs.get("cfg.py::CFG.separate_terminals.preterminal")
-        if pre is None:
-            raise AnalysisError("cfg.py::CFG.separate_terminals.preterminal not found")
+        pres = [g for g in P.funcs.values() if g.outer is f and any(isinstance(n, ast.Call) and W.call_name(n) == "_gen_nt" for n in walk_live(g.node))]
+        if len(pres) != 1:
+            raise AnalysisError("cfg.py::CFG.separate_terminals: the nested preterminal factory (calls _gen_nt) not found")
+        pre = pres[0]
         r.looked_at(pre)
         adds = _adds(pre)
         if len(adds) != 1:
@@ -232,7 +244,7 @@ def rule_factor_unaryremove(P):
         rv = next((v for v, it in lv.items() if it in ("self", "self.rules")), None)
         want = sorted([f"{clo}[{head}, {rv}.head]", f"{rv}.w"])
         ok = num == want and not den and lv.get(head) in ("self.N",) and len(c.args) == 3 and isinstance(c.args[2], ast.Starred) \
-            and norm(c.args[2].value) == f"{rv}.body"
+            and W.cnorm(f.node, c.args[2].value, c) == f"{rv}.body"
         r.add(f, c, ok, "" if ok else f"`{first_line(c)}`: weight factors {num} / head `{head}` over `{lv.get(head)}`; expected "
               f"{want} with the head ranging over self.N and the body copied", slots=dict(factors=num, head_ranges_over=lv.get(head)))
     r.min_instances = 1
@@ -401,13 +413,17 @@ def rule_factor_det(P):
             resid = t.elts[1]
             comp = next((x for x in ast.walk(resid) if isinstance(x, ast.DictComp)), None)
             if comp is not None and isinstance(wd, ast.Call) and W.call_name(wd) == "sum":
-                num, den = W.factors(comp.value)
+                num, den = W.cfactors(pa.node, comp.value, comp.value)
                 g0 = comp.generators[0]
                 rset = norm(_strip_items(g0.iter))
                 if isinstance(g0.target, ast.Tuple) and len(g0.target.elts) == 2:
                     # {p: v / W for p, v in R.items()}
                     num = [x if x != norm(g0.target.elts[1]) else f"{rset}[{norm(g0.target.elts[0])}]" for x in num]
-                ok = den == [norm(wsum)] and num == [f"{rset}[{norm(comp.key)}]"] and W.cnorm(pa.node, wd.args[0], y) == W.cnorm(pa.node, ast.parse(f"{rset}.values()", mode="eval").body, y)
+                crset = W.cnorm(pa.node, _strip_items(g0.iter), y)
+                ckey = W.cnorm(pa.node, comp.key, comp.key)
+                cw = W.cnorm(pa.node, wsum, y)
+                ok = den in ([norm(wsum)], [cw]) and num in ([f"{rset}[{norm(comp.key)}]"], [f"{crset}[{ckey}]"], [f"{rset}[{ckey}]"], [f"{crset}[{norm(comp.key)}]"]) \
+                    and W.cnorm(pa.node, wd.args[0], y) == W.cnorm(pa.node, ast.parse(f"{rset}.values()", mode="eval").body, y)
                 slots = dict(residual=norm(comp.value), arc_weight=norm(wsum), W=norm(wd))
         r.add(pa, y, ok, "" if ok else f"`{first_line(y)}`: residuals must be R[p]/W with W = sum(R.values()) and the arc weight W", slots=slots)
     addF = _adds(f, names=("add_F",))
@@ -588,6 +604,9 @@ def rule_factor_cky(P):
                         (isinstance(n, ast.Assign) and isinstance(n.targets[0], ast.Tuple) and ".head" in norm(n.value) and ".body" in norm(n.value)):
                     unpack = n
             ok = False
+            if unpack is None:
+                r.undecided(f, a, "binary CKY update: the rule's (head, [left, right]) unpacking is not recognised", construct="_parse_chart: binary update")
+                continue
             if unpack is not None:
                 t = unpack.targets[0]
                 names = [norm(e) for e in ast.walk(t) if isinstance(e, ast.Name)]
@@ -602,7 +621,7 @@ def rule_factor_cky(P):
         elif len(cells) == 0 and len(num) == 1 and num[0].endswith(".w"):
             rv = num[0][:-2]
             lp = _loop_of(a, rv)
-            ok = x == f"{rv}.head" and k == f"{i} + 1" and lp is not None and norm(lp.iter).startswith("terminal[") and f"[{raw_i}]" in norm(lp.iter)
+            ok = x == f"{rv}.head" and k == f"{i} + 1" and lp is not None and W.citer(f.node, lp).startswith("terminal[") and f"[{raw_i}]" in W.citer(f.node, lp)
             r.add(f, a, ok, "" if ok else f"`{first_line(a)}` is not the preterminal update c[i, r.head, i+1] += r.w for rules of xs[i]", slots=dict(factors=num))
         else:
             ok = x == "self.S" and i == k and len(num) == 1
@@ -631,7 +650,7 @@ def rule_factor_nullpush(P):
     lp = outer[0]
     rv = next((v for v, it in _loop_vars(lp).items() if it in ("self", "self.rules")), None)
     rep = next((k.value for k in lp.iter.keywords if k.arg == "repeat"), None)
-    ok = rv is not None and rep is not None and norm(rep) == f"len({rv}.body)" and lp.iter.args and norm(lp.iter.args[0]) in ("[0, 1]", "(0, 1)", "[1, 0]", "(1, 0)", "[False, True]", "(False, True)")
+    ok = rv is not None and rep is not None and W.cnorm(f.node, rep, lp) == f"len({rv}.body)" and lp.iter.args and norm(lp.iter.args[0]) in ("[0, 1]", "(0, 1)", "[1, 0]", "(1, 0)", "[False, True]", "(False, True)")
     r.add(f, lp, ok, "" if ok else f"`{first_line(lp)}`: the enumeration is not over one bit per body position of the rule",
           slots=dict(repeat=norm(rep) if rep is not None else None))
     if not ok:
